@@ -78,6 +78,26 @@ Proof. exact contentfile_missing_shipped. Qed.
 Theorem C30_sorted_hashes_canonical : forall l l', Permutation l l' -> sort_bytes l = sort_bytes l'.
 Proof. exact sort_bytes_canonical. Qed.
 
+(** 5. Listing versus hashing walk of a Dir.  Iterating a Dir lists its members ([dir_listing], the
+    recursive glob); its hash is computed from a walk the filesystem provides.  The model's Dir hash
+    uses the listing itself (the translator checks that LocalFileSystem inherits the generic
+    iter_file_hashes).  For ANY walk that covers the listing, an unchanged Dir hash means that the
+    recorded stat-hash of every listed member is still the hash of a walked file (nothing listed was
+    deleted or altered); a walk that does not descend into a sub-directory misses such a change. *)
+Theorem C30_dir_hash_is_over_the_listing : forall H v fs d,
+  hash_dir H v FBase fs d = Some (dir_hash_with H dir_listing (bn_dir FBase) fs d).
+Proof. exact hash_dir_uses_listing. Qed.
+Theorem C30_dir_hash_covers_listing : forall H, (forall a b, H a = H b -> a = b) -> forall walk bn fs fs' d,
+  incl (dir_listing fs d) (walk fs d) ->
+  dir_hash_with H walk bn fs d = dir_hash_with H walk bn fs' d ->
+  forall e, In e (dir_listing fs d) ->
+    In (hash_file_base H fs (fst e)) (map (fun e' => hash_file_base H fs' (fst e')) (walk fs' d)).
+Proof. exact dir_hash_covers_listing. Qed.
+Theorem C30_refuted_walk_skipping_subdirectory : forall H, exists fs fs' d e,
+  In e (dir_listing fs d) /\ fs_get fs' (fst e) = None /\
+  dir_hash_with H walk_flat (bn_dir FBase) fs d = dir_hash_with H walk_flat (bn_dir FBase) fs' d.
+Proof. exact walk_skipping_refuted. Qed.
+
 (** Non-vacuity: a reachable state with a File and two Dirs; a redun write, then a change behind
     redun's back makes the File invalid (b = false), and a repaired Dir copy leaves the cached
     destination hash fresh. *)
